@@ -488,6 +488,12 @@ class Inliner:
         for n in locals_:
             rename[n] = (prefix + n) if n in caller_names else n
         assigned_in_g = {n.id for n in ast.walk(g.node) if isinstance(n, ast.Name) and isinstance(n.ctx, (ast.Store, ast.Del))}
+        scoped_bound = set()
+        for x in ast.walk(g.node):
+            if isinstance(x, ast.comprehension):
+                scoped_bound |= {y.id for y in ast.walk(x.target) if isinstance(y, ast.Name)}
+            elif isinstance(x, ast.Lambda):
+                scoped_bound |= {y.arg for y in x.args.posonlyargs + x.args.args + x.args.kwonlyargs}
         subst = {}
         binds = {}
         for p, v in zip(params, c.args):
@@ -523,6 +529,9 @@ class Inliner:
                 rename[p] = inout[p]
                 continue
             pure = isinstance(v, (ast.Name, ast.Constant)) or (isinstance(v, ast.Attribute) and _pure_chain(v))
+            # a name bound by a comprehension / lambda of the helper would capture the substituted argument
+            if pure and any(isinstance(x, ast.Name) and x.id in scoped_bound for x in ast.walk(v)):
+                pure = False
             if pure and p not in assigned_in_g and not (isinstance(v, ast.Name) and v.id in locals_ and rename.get(v.id) == v.id):
                 subst[p] = v
                 rename.pop(p, None)
